@@ -77,11 +77,15 @@ type OpSpec struct {
 	Eager     bool           `json:"eager,omitempty"`
 	NoStrip   bool           `json:"no_strip,omitempty"`
 	Stop      bool           `json:"stop_on_failed,omitempty"`
-	FailedOp  []string       `json:"failed_when_op,omitempty"`
-	Complete  []string       `json:"complete_patterns,omitempty"`
-	Interim   []string       `json:"interim_prompt_patterns,omitempty"`
-	OptSeed   uint64         `json:"opt_seed,omitempty"` // != 0: the option list is shuffled with this seed
-	IdleUS    int64          `json:"idle_us,omitempty"`
+	// ShareKey: the caller keeps the objects it passes to this operation (the interactive events)
+	// and passes the very same objects to every other operation of the run with the same key --
+	// also on another connection (Session.Prior)
+	ShareKey string   `json:"share_key,omitempty"`
+	FailedOp []string `json:"failed_when_op,omitempty"`
+	Complete []string `json:"complete_patterns,omitempty"`
+	Interim  []string `json:"interim_prompt_patterns,omitempty"`
+	OptSeed  uint64   `json:"opt_seed,omitempty"` // != 0: the option list is shuffled with this seed
+	IdleUS   int64    `json:"idle_us,omitempty"`
 	// Lines is the expected result (normalised output lines) of a send, by construction.
 	Lines [][]string `json:"lines,omitempty"`
 	// WantFail (C13): per command, whether its output carries a failure string in force.
@@ -139,6 +143,15 @@ type Session struct {
 	// OtherAfterOpen: a second, independent connection of the same process that is opened right
 	// after this one's Open returned and before its first operation (and closed at the end)
 	OtherAfterOpen *Session `json:"other_after_open,omitempty"`
+	// Prior: an earlier connection of the same process (its own device and transport), opened, used
+	// and closed before this one is opened. Nothing is asserted about it; it is there for what it
+	// may leave behind in the process and in objects the caller uses again (OpSpec.ShareKey)
+	Prior *Session `json:"prior,omitempty"`
+	// PromptPattern: the connection is given this prompt pattern instead of the default one
+	PromptPattern string `json:"prompt_pattern,omitempty"`
+	// SharePrivs: the privilege level objects given to the driver are the ones an earlier
+	// connection of the run (Prior) was built with, edited in place
+	SharePrivs bool `json:"share_privs,omitempty"`
 	// PlatLogin: the network driver is built from a platform definition whose network-on-open
 	// sequence writes this login secret (redacted) to a gate in front of the device, presses
 	// return, acquires the default level and sends a command
@@ -356,6 +369,30 @@ func opOpts(sc *Session, op *OpSpec) []util.Option {
 // StartSession builds driver, device and transport and starts the workload goroutine; the caller
 // runs the controller (so properties can choose deadline/settle and install observers).
 func StartSession(env *Env, sc *Session) (*SessionRun, <-chan struct{}) {
+	if sc.Prior != nil {
+		// the earlier connection runs to its end before this connection's driver is even built
+		sr := &SessionRun{Sc: sc}
+		done := env.Go("user", func() {
+			p, err := buildSession(env, sc.Prior)
+			if err != nil {
+				env.Res.HarnessError = "prior connection: NewDriver: " + err.Error()
+
+				return
+			}
+			p.workload(env)
+			env.Probe("prior-connection")
+			m, err := buildSession(env, sc)
+			if err != nil {
+				env.Res.HarnessError = "NewDriver: " + err.Error()
+
+				return
+			}
+			*sr = *m
+			sr.workload(env)
+		})
+
+		return sr, done
+	}
 	sr, err := buildSession(env, sc)
 	if err != nil {
 		env.Res.HarnessError = "NewDriver: " + err.Error()
@@ -411,6 +448,9 @@ func buildSession(env *Env, sc *Session) (*SessionRun, error) {
 	}
 	if sc.SearchDepth > 0 {
 		opts = append(opts, options.WithPromptSearchDepth(sc.SearchDepth))
+	}
+	if sc.PromptPattern != "" {
+		opts = append(opts, options.WithPromptPattern(regexp.MustCompile(sc.PromptPattern)))
 	}
 	if sc.Auth == "" {
 		opts = append(opts, options.WithAuthBypass())
@@ -469,10 +509,18 @@ func buildSession(env *Env, sc *Session) (*SessionRun, error) {
 	case "network":
 		pl := map[string]*network.PrivilegeLevel{}
 		for _, p := range sc.Privs {
-			pl[p.Name] = &network.PrivilegeLevel{
-				Name: p.Name, Pattern: p.Pattern, NotContains: p.NotContains, PreviousPriv: p.Previous,
-				Escalate: p.Escalate, Deescalate: p.Deescalate, EscalateAuth: p.EscalateAuth, EscalatePrompt: p.EscalatePrompt,
+			lvl := &network.PrivilegeLevel{}
+			if sc.SharePrivs {
+				// the caller keeps one set of level objects, edits them for the device at hand and
+				// hands them to every driver it builds
+				if old, ok := env.Shared["priv:"+p.Name].(*network.PrivilegeLevel); ok {
+					lvl = old
+				}
+				env.share("priv:"+p.Name, lvl)
 			}
+			lvl.Name, lvl.Pattern, lvl.NotContains, lvl.PreviousPriv = p.Name, p.Pattern, p.NotContains, p.Previous
+			lvl.Escalate, lvl.Deescalate, lvl.EscalateAuth, lvl.EscalatePrompt = p.Escalate, p.Deescalate, p.EscalateAuth, p.EscalatePrompt
+			pl[p.Name] = lvl
 		}
 		if sc.Secondary != "" {
 			opts = append(opts, options.WithAuthSecondary(sc.Secondary))
@@ -638,9 +686,17 @@ func (sr *SessionRun) do(env *Env, op *OpSpec, o []util.Option, rec *OpRec) {
 		}
 	}
 	events := func() []*channel.SendInteractiveEvent {
+		if op.ShareKey != "" {
+			if ev, ok := env.Shared["events:"+op.ShareKey].([]*channel.SendInteractiveEvent); ok {
+				return ev
+			}
+		}
 		var ev []*channel.SendInteractiveEvent
 		for _, e := range op.Events {
 			ev = append(ev, &channel.SendInteractiveEvent{ChannelInput: e.Input, ChannelResponse: e.Response, HideInput: e.Hidden})
+		}
+		if op.ShareKey != "" {
+			env.share("events:"+op.ShareKey, ev)
 		}
 
 		return ev
@@ -788,6 +844,9 @@ func (sr *SessionRun) do(env *Env, op *OpSpec, o []util.Option, rec *OpRec) {
 // full timeout once per step, plus idles.
 func (sc *Session) Deadline() time.Duration {
 	d := 2*sc.connTimeout() + time.Second
+	if sc.Prior != nil {
+		d += sc.Prior.Deadline()
+	}
 	if sc.OtherAfterOpen != nil {
 		d += 2*sc.OtherAfterOpen.connTimeout() + time.Second
 	}
